@@ -1,4 +1,5 @@
 """C16 New mail wakes the daemon: no lost trigger, no busy loop (DESIGN.md 4/C16)."""
+import os
 from lib.daemonchk import *
 
 
@@ -29,4 +30,11 @@ def main(tier, replay=None):
     res.assumptions = ["virtual kernel FIFO/select semantics as measured on Linux (bin/conformance)", "calls of the three programs that touch neither todo/ nor lock/trigger commute with the other side and are not scheduling points"]
     res.require_nonzero("evaluations", "race_trigger_pulled_during_scan", "race_link_during_scan", "race_trigger_open_ENXIO_during_rearm", "readdir_sees_late_entry", "ticks", "reports_Z")
     res.notes.append("virtual kernel vs Linux: %d operation sequences compared before this run, all agree (bin/conformance)" % nconf)
+    # "never sleeps past its earliest due event" rests on the priority queue returning the earliest entry: the exhaustive prioq
+    # enumeration of C15 (every insert/delmin sequence against a sorted reference) is part of this check too
+    rdq = rundir("C16prioq")
+    srca = scratch_build(rdq, "asan")
+    exe = compile_harness(srca, os.path.join(rdq, "c15"), [os.path.join(VERIF, "seq/c15_sched.c")], link_target="qmail-send")
+    res.run_parallel([("%s prioq %d 4" % (exe, 8 if q else 10), "prioq operation sequences"), ("%s prioqperm %d" % (exe, 8 if q else 9), "prioq insertion orders")])
+    res.rule += "; prioq: every insert/delmin sequence up to the depth over 4 key values and every insertion order of n distinct keys on the real heap against a sorted reference"
     return res.finish()
